@@ -128,8 +128,17 @@ partial def loop (h : IO.FS.Stream) (out : IO.FS.Stream) : IO Unit := do
     match J.parse line with
     | .error e => out.putStrLn (J.render (.obj [("error", jstr e)]))
     | .ok rec =>
-      let v := processRewrite rec
-      out.putStrLn (J.render (verdictJson (rec.getD "id") v))
+      let mode := (rec.getD "mode").strD
+      if mode == "parseonly" then
+        out.putStrLn "{}"
+      else if mode == "convertonly" then
+        let cfg := configOfRecord rec
+        match programFromJ (tempPrefix cfg.localVarPrefix) (rec.getD "in_ast"), programFromJ (tempPrefix cfg.localVarPrefix) (rec.getD "out_mem") with
+        | .ok a, .ok b => out.putStrLn (J.render (.obj [("n", jnat (a.size + b.size))]))
+        | _, _ => out.putStrLn "{}"
+      else
+        let v := processRewrite rec
+        out.putStrLn (J.render (verdictJson (rec.getD "id") v))
     out.flush
     loop h out
 
